@@ -55,6 +55,8 @@ def runAcs (env : Env) (rest : String) : String :=
 
 structure St where
   es : EncState
+  /-- the other screen of the case (op `X`): same entry, charset and width, its own fallback registrations -/
+  other : EncState
   tw : Int
 
 def b01 (b : Bool) : String := if b then "1" else "0"
@@ -88,6 +90,7 @@ def stepOp (env : Env) (st : St) (op : String) : St × Option String :=
     (st, some ("c:" ++ b01 (es.canDisplay (toInt! r) (f = "1"))))
   | ["R", r, s] => ({ st with es := st.es.registerFallback (toInt! r) (unhex s) }, none)
   | ["U", r] => ({ st with es := st.es.unregisterFallback (toInt! r) }, none)
+  | ["X"] => ({ st with es := st.other, other := st.es }, none)
   | _ => (st, some "bad-op")
 
 def runEnc (env : Env) (rest : String) : String :=
@@ -101,7 +104,7 @@ def runEnc (env : Env) (rest : String) : String :=
         let es : EncState := { enc := fun _ => {}, acs := buildAcsMap (parseVariant v) tables.names ti, fallback := tables.fallbacks }
         let (_, obs) := ops.foldl (fun (acc : St × Array String) op =>
           let (s', o) := stepOp env acc.1 op
-          (s', match o with | some s => acc.2.push s | none => acc.2)) (({ es := es, tw := toInt! tw } : St), #[])
+          (s', match o with | some s => acc.2.push s | none => acc.2)) (({ es := es, other := es, tw := toInt! tw } : St), #[])
         " ".intercalate obs.toList
     | _ => "bad-case"
   | [] => "bad-case"
